@@ -1578,7 +1578,7 @@ def rule_nfa(px):
 # ====================================================================================== R8 subset construction
 def rule_closure(px):
     r = Rule('C50-DFA', 'nfa_to_dfa: every NFA state set that becomes a DFA state is epsilon-closed (initial states and transition targets), epsilon moves are not '
-             'copied as DFA transitions, link_to/get_epsilon agree on the epsilon key, the closure is reflexive and recursive', floor=6)
+             'copied as DFA transitions, link_to/get_epsilon agree on the epsilon key (the closure functions themselves: C50-EPS)', floor=4)
     tree = px.trees['DFA']
     rel = px.rel('DFA')
     funcs = {n.name: n for n in tree.body if isinstance(n, ast.FunctionDef)}
@@ -1656,27 +1656,7 @@ def rule_closure(px):
     if k1[0] != k2[0] or k1[0]:
         r.violate('epsilon-key', px.rel('Machines'), lt.lineno,
                   'Node.link_to records epsilon moves under %r but TransitionMap.get_epsilon reads %r (and nfa_to_dfa skips only falsy events): epsilon moves are never followed' % (k1[0], k2[0]))
-    # closure function: reflexive + recursive
-    rec = [f for name, f in funcs.items() if name in F and any(isinstance(n, ast.Call) and isinstance(n.func, ast.Name) and n.func.id == name for n in walk_no_nested(f))]
-    r.inst('closure:recursive', sample='recursive closure function: %s' % [f.name for f in rec])
-    if not rec:
-        raise AnalysisError('DFA.py: recursive epsilon-closure helper not found')
-    f = rec[0]
-    ps = params(f)
-    adds_self = any(isinstance(n, ast.Call) and isinstance(n.func, ast.Attribute) and n.func.attr == 'add' and isinstance(n.func.value, ast.Name) and n.func.value.id == ps[0]
-                    and n.args and isinstance(n.args[0], ast.Name) and n.args[0].id == ps[1] for n in walk_no_nested(f))
-    r.inst('closure:reflexive')
-    if not adds_self:
-        r.violate('closure:reflexive', rel, f.lineno, '%s does not add the state itself to its closure' % f.name)
-    recurses = False
-    for n in walk_no_nested(f):
-        if isinstance(n, ast.For) and isinstance(n.target, ast.Name):
-            for c in ast.walk(n):
-                if isinstance(c, ast.Call) and isinstance(c.func, ast.Name) and c.func.id == f.name and len(c.args) == 2 and \
-                        isinstance(c.args[0], ast.Name) and c.args[0].id == ps[0] and isinstance(c.args[1], ast.Name) and c.args[1].id == n.target.id:
-                    recurses = True
-    if not recurses:
-        r.violate('closure:recursive', rel, f.lineno, '%s does not recurse into every epsilon successor with the same result set: chains of epsilon moves are cut after one step' % f.name)
+    # that the closure functions are reflexive and follow chains and cycles of epsilon moves is decided by evaluation on all small epsilon graphs: sC50.rule_epsclosure (C50-EPS)
     return r
 
 
